@@ -99,10 +99,17 @@ func checkC04(c *Ctx) error {
 				c.Inconclusive("type imports harness: path outcome " + r.Outcome)
 				continue
 			}
-			var typ string
+			var typ, order, taken string
 			for _, ev := range r.Events {
-				if le, ok := ev.(symx.LogEvent); ok && le.Tag == "type" {
-					typ = fmt.Sprint(le.Val)
+				if le, ok := ev.(symx.LogEvent); ok {
+					switch le.Tag {
+					case "type":
+						typ = fmt.Sprint(le.Val)
+					case "order":
+						order = fmt.Sprint(le.Val)
+					case "taken":
+						taken = "package name already in use"
+					}
 				}
 			}
 			for _, rc := range r.Reached {
@@ -113,7 +120,7 @@ func checkC04(c *Ctx) error {
 			for _, a := range r.Asserts {
 				oblig++
 				if a.Verdict == "violated" {
-					report(map[string]string{"kind": a.ID, "shape": typeShape(typ, "")}, map[string]any{"type": typ}, "C04-imports-"+corpus.Sanitize(typeShape(typ, "")))
+					report(map[string]string{"kind": a.ID, "shape": typeShape(typ, ""), "order": order, "name": taken}, map[string]any{"type": typ}, "C04-imports-"+corpus.Sanitize(typeShape(typ, "")+"-"+order))
 				}
 			}
 		}
